@@ -248,7 +248,8 @@ Definition k_ok (d : dler) (x : name) : Prop :=
 Record inv3 (c : cfg) (s : state) : Prop := {
   v_w : forall j d x, s_dl s j = Some d -> working (d_phase d) = Some x -> d_last d <> Some x;
   v_n : forall j x, alook (s_seen s) j = Some x ->
-          s_notif s j = Some x \/ pending_has s j x \/ (j = c_own c /\ s_ownskip s = true);
+          s_notif s j = Some x \/ pending_has s j x \/
+          (j = c_own c /\ s_ownskip s = true /\ notif_ignored s j = false);
   v_k : forall j x, (j <> c_own c \/ s_ownskip s = false) ->
           alook (s_seen s) j = Some x -> s_notif s j = Some x ->
           exists d, s_dl s j = Some d /\ k_ok d x;
@@ -374,21 +375,24 @@ Qed.
 
 Lemma n_other c s b a j k x :
   s_pend s = Some (b, a) -> k <> j ->
-  (s_notif s k = Some x \/ pending_has s k x \/ (k = c_own c /\ s_ownskip s = true)) ->
+  (s_notif s k = Some x \/ pending_has s k x \/
+   (k = c_own c /\ s_ownskip s = true /\ notif_ignored s k = false)) ->
   forall os, (os = true \/ os = s_ownskip s) ->
   s_notif s k = Some x \/
-  (exists i m, pend_of b (adel a j) = Some (i, m) /\ alook m k = Some x) \/ (k = c_own c /\ os = true).
+  (exists i m, pend_of b (adel a j) = Some (i, m) /\ alook m k = Some x) \/
+  (k = c_own c /\ os = true /\ notif_ignored s k = false).
 Proof.
-  intros HP NE [A|[(i & m & A & B)|[A B]]] os Hos; [auto| |].
+  intros HP NE [A|[(i & m & A & B)|(A & B & C)]] os Hos; [auto| |].
   - rewrite HP in A. inversion A; subst. right. left. apply pend_adel; assumption.
-  - right. right. split; [assumption|]. destruct Hos; congruence.
+  - right. right. split; [assumption|]. split; [destruct Hos; congruence | exact C].
 Qed.
 
 Lemma inv3_n c s l s' : inv2 s -> inv3 c s -> step c s l = Some s' ->
   forall j x, alook (s_seen s') j = Some x ->
-          s_notif s' j = Some x \/ pending_has s' j x \/ (j = c_own c /\ s_ownskip s' = true).
+          s_notif s' j = Some x \/ pending_has s' j x \/
+          (j = c_own c /\ s_ownskip s' = true /\ notif_ignored s' j = false).
 Proof.
-  intros I2 [W N K P D RL R CD] H. step_inv H; scbn; try assumption.
+  intros I2 [W N K P D RL R CD] H. unfold notif_ignored in *. step_inv H; scbn; try assumption.
   all: try solve [fin].
   all: unfold pending_has; scbn.
   all: intros; upd_cases; inv_some; scbn; inv_some; eauto.
@@ -398,16 +402,17 @@ Proof.
     destruct (N.eq_dec j0 j) as [->|NE].
     + left. apply oname_eqb_eq in Heqb0. rewrite <- Heqb0. f_equal.
       pose proof (q_pend _ I2 _ _ _ _ Heqo Heqo0) as A. congruence.
-    + eapply n_other; eauto.
+    + eapply (n_other c s b a j j0 x Heqo NE (N _ _ H) (s_ownskip s)). auto.
   - (* notify: own skipped *)
+    apply andb_true_iff in Heqb1. destruct Heqb1 as [A1 A2].
+    apply andb_true_iff in A1. destruct A1 as [_ A1]. apply N.eqb_eq in A1. apply negb_true_iff in A2.
     destruct (N.eq_dec j0 j) as [->|NE].
-    + right. right. split; [|reflexivity]. apply andb_true_iff in Heqb1. destruct Heqb1 as [_ A].
-      apply N.eqb_eq in A. exact A.
+    + right. right. split; [exact A1|]. split; [reflexivity|]. exact A2.
     + eapply (n_other c s b a j j0 x Heqo NE (N _ _ H) true). auto.
   - left. f_equal. pose proof (q_pend _ I2 _ _ _ _ Heqo Heqo0) as A. congruence.
-  - eapply n_other; eauto.
+  - eapply (n_other c s b a j j0 x Heqo E (N _ _ H) (s_ownskip s)). auto.
   - left. f_equal. pose proof (q_pend _ I2 _ _ _ _ Heqo Heqo0) as A. congruence.
-  - eapply n_other; eauto.
+  - eapply (n_other c s b a j j0 x Heqo E (N _ _ H) (s_ownskip s)). auto.
 Qed.
 
 Lemma inv3_p c s l s' : inv2 s -> inv3 c s -> step c s l = Some s' ->
@@ -454,7 +459,7 @@ Proof.
   - rewrite SB in H0. cbn in H0. destruct (newest (s_bucket s) l j) eqn:EN; [|discriminate].
     inversion H0; subst n. apply newest_some in EN. destruct EN as (A1 & _ & _ & A2).
     destruct (alook (s_seen s) j) as [z|] eqn:EZ.
-    + destruct (N _ _ EZ) as [B|[(i & m & B & _)|[B1 B2]]].
+    + destruct (N _ _ EZ) as [B|[(i & m & B & _)|(B1 & B2 & B3)]].
       * rewrite B in H1. inversion H1; subst z. apply K; assumption.
       * unfold pending_has in *; congruence.
       * destruct H as [H|H]; congruence.
@@ -464,7 +469,7 @@ Proof.
   - rewrite SB in H0. cbn in H0. destruct (newest (s_bucket s) l j) eqn:EN; [|discriminate].
     inversion H0; subst n. apply newest_some in EN. destruct EN as (A1 & _ & _ & A2).
     destruct (alook (s_seen s) j) as [z|] eqn:EZ.
-    + destruct (N _ _ EZ) as [B|[(i & m & B & _)|[B1 B2]]].
+    + destruct (N _ _ EZ) as [B|[(i & m & B & _)|(B1 & B2 & B3)]].
       * rewrite B in H1. inversion H1; subst z. apply K; assumption.
       * unfold pending_has in *; congruence.
       * destruct H as [H|H]; congruence.
